@@ -495,7 +495,8 @@ def check_property(prop: str, tier: str, seed: int, write_baseline=False, only_u
     for u in new_undecided:
         fb = fallback.get(u["unit"], {})
         stand_in_ran = bounded is not None and not errors
-        if u.get("changed") and "solver unknown" not in u["why"] and stand_in_ran:
+        out_of_time = "per-unit budget" in u["why"] or "hard per-unit budget" in u["why"]
+        if u.get("changed") and "solver unknown" not in u["why"] and not out_of_time and stand_in_ran:
             u["decided_by"] = f"bounded stand-in only (native contract check: {fb.get('evaluations', 0)} evaluations; driver rt/{prop.lower()}.py)"
         else:
             blocking.append(u)
